@@ -119,41 +119,71 @@ typed!(c01_typed_xor_mapped_address, XorMappedAddress);
 typed!(c01_typed_username, Username);
 typed!(c01_typed_fingerprint, Fingerprint);
 
-/// attribute-type policing on a non-request message: header-only message of symbolic
-/// indication/success/error class, one required type (absent).  Longer messages make the
-/// iterator/closure nest of check_attribute_types unroll for > 10 minutes; policing of requests
-/// (including the response it builds) is C16.
-fn policing_non_request<const CLASS: u8>() {
-    // the class is a constant per instantiation: with a symbolic class CBMC also unrolls the whole
-    // (infeasible) error-response builder path after the panic check
-    let class: u8 = CLASS;
-    // (the method is fixed as well: the class bits are interleaved with the method bits in the
-    // type field, and a symbolic method makes the class symbolic for CBMC's constant propagation)
-    let method: u16 = 0x001;
-    let t: u128 = kani::any();
+/// attribute-type policing (`check_attribute_types`) on EVERY accepted message of any class with
+/// symbolic supported / required lists.  The two response constructors are recorder stubs that
+/// still call the real `Message::builder_error` (stubs.rs): whether policing can panic is decided
+/// on the real verdict logic + the real builder_error; the attribute-adding half of the
+/// constructors only runs for requests and is decided in c16_response_*_parses_back.
+fn policing<const N: usize>() {
+    prelude!(N, buf, len, probe, q, data, res, r);
+    let sup: u16 = kani::any();
     let req: u16 = kani::any();
-    let b = crate::agentworld::header_msg(class, method, t.into());
+    let ns: usize = kani::any();
+    let nr: usize = kani::any();
+    kani::assume(ns <= 1 && nr <= 1);
+    let supt = [AttributeType::new(sup)];
+    let reqt = [AttributeType::new(req)];
+    if let Ok(msg) = &res {
+        let out = Message::check_attribute_types(msg, &supt[..ns], &reqt[..nr]);
+        kani::cover!(out.is_some());
+        kani::cover!(out.is_none() && msg.class() != MessageClass::Request);
+        std::mem::forget(out);
+    }
+}
+
+// (at most one attribute in 24 bytes, lists of at most one entry: every loop of the
+// iterator/closure nest of check_attribute_types runs at most twice and gets bound 3 through
+// --unwindset (registry); with 28 bytes and the global bound 5 the nest is 6.1 M symex steps and
+// did not finish in 30 minutes)
+#[kani::proof]
+#[kani::unwind(5)]
+#[kani::stub(stun_types::attribute::Fingerprint::compute, crc_stub)]
+#[kani::stub(stun_types::message::Message::unknown_attributes, unknown_attributes_stub)]
+#[kani::stub(stun_types::message::Message::bad_request, bad_request_stub)]
+fn c01_policing_any_class_24() {
+    policing::<24>();
+}
+
+/// quick-tier version: header-only message of a fixed class (one instantiation per class), method
+/// and id -- fully concrete bytes, so that the attribute walk folds away -- and a symbolic
+/// required-type list of 0..=1 entries (the missing-attribute branch)
+fn policing_header_only<const CLASS: u8>() {
+    let req: u16 = kani::any();
+    let nr: usize = kani::any();
+    kani::assume(nr <= 1);
+    let b = crate::agentworld::header_msg(CLASS, 0x001, crate::agentworld::tid(1));
     let msg = Message::from_bytes(&b).unwrap();
     let reqt = [AttributeType::new(req)];
-    let out = Message::check_attribute_types(&msg, &[], &reqt);
-    kani::cover!(out.is_some());
+    let out = Message::check_attribute_types(&msg, &[], &reqt[..nr]);
+    if CLASS == 0 {
+        kani::cover!(out.is_some());
+    }
+    kani::cover!(out.is_none());
     std::mem::forget(out);
 }
 
-#[kani::proof]
-#[kani::unwind(4)]
-fn c01_policing_indication() {
-    policing_non_request::<1>();
+macro_rules! pol {
+    ($name:ident, $C:expr) => {
+        #[kani::proof]
+        #[kani::unwind(5)]
+        #[kani::stub(stun_types::message::Message::unknown_attributes, unknown_attributes_stub)]
+        #[kani::stub(stun_types::message::Message::bad_request, bad_request_stub)]
+        fn $name() {
+            policing_header_only::<$C>();
+        }
+    };
 }
-
-#[kani::proof]
-#[kani::unwind(4)]
-fn c01_policing_success_response() {
-    policing_non_request::<2>();
-}
-
-#[kani::proof]
-#[kani::unwind(4)]
-fn c01_policing_error_response() {
-    policing_non_request::<3>();
-}
+pol!(c01_policing_header_only_request, 0);
+pol!(c01_policing_header_only_indication, 1);
+pol!(c01_policing_header_only_success, 2);
+pol!(c01_policing_header_only_error, 3);
